@@ -74,30 +74,51 @@ def showMpL2 (x : MpL2) : String :=
   let st := if x.stack.isEmpty then "-" else ",".intercalate (x.stack.map toString)
   s!"stack={st} asz={x.asz} na={x.na} ne={x.ne} st={if x.st then 1 else 0} dyn={if x.dyn then 1 else 0} {showL2c x.c}"
 
-def showEqExtra : EqExtra → String
-  | .none => ""
-  | .null => " null"
-  | .record b => s!" rec={hexOfBytes b}"
+/-- one `key=value` token -/
+def kv (k v : String) : String := k ++ "=" ++ v
+
+/-- the tokens `eq_get` / `eq_dump` add to the queue line -/
+def eqExtraToks : EqExtra → List String
+  | .none => []
+  | .null => ["null"]
+  | .record b => [kv "rec" (hexOfBytes b)]
   | .recs l =>
       let recs := l.map fun | some b => hexOfBytes b | none => "?"
-      " recs=" ++ (if recs.isEmpty then "-" else ";".intercalate recs)
+      [kv "recs" (if recs.isEmpty then "-" else ";".intercalate recs)]
 
-def render : Out → String
-  | .word w => showWord w
-  | .ended live n => s!"end live={live} leaked=0 | n={n}"
-  | .initFail rf c => s!"fail rf={rf} | {showL2c c}"
-  | .ea st sz al rf none c => s!"{stStr st} sz={sz} al={al} rf={rf} | {showL2c c}"
-  | .ea st sz al rf (some (n, b)) c => s!"{stStr st} sz={sz} al={al} rf={rf} n={n} out={hexOfBytes b} | {showL2c c}"
-  | .eaExport rf n b c => s!"ok rf={rf} n={n} out={hexOfBytes b} | {showL2c c}"
-  | .freed c => s!"ok | {showL2c c}"
-  | .eq st len rf x l2 => s!"{stStr st} len={len} rf={rf}{showEqExtra x} | {showEqL2 l2}"
-  | .smInit rf l2 => s!"ok rf={rf} | {showSmL2 l2}"
-  | .sm st rf num ptr l2 =>
-      s!"{stStr st} rf={rf}" ++ (match num with | some i => s!" num={i}" | none => "") ++
-        (match ptr with | some p => s!" ptr={p}" | none => "") ++ s!" | {showSmL2 l2}"
-  | .mp rf o l2 =>
-      s!"ok rf={rf}" ++ (match o with | .none => "" | .null => " null" | .obj x => s!" obj={x}") ++ s!" | {showMpL2 l2}"
-  | .mpExit c => s!"ok leaked=0 | {showL2c c}"
+/-- **the tokens of the L1 part** of a line (what the monitor reads: `Proofs/DsAns.lean` proves
+`Dsmon.parseAns (l1Toks o) = o.ans`) -/
+def l1Toks : Out → List String
+  | .word w => [showWord w]
+  | .ended live _ => ["end", kv "live" (toString live), kv "leaked" "0"]
+  | .initFail rf _ => ["fail", kv "rf" (toString rf)]
+  | .ea st sz al rf none _ => [stStr st, kv "sz" (toString sz), kv "al" (toString al), kv "rf" (toString rf)]
+  | .ea st sz al rf (some (n, b)) _ =>
+      [stStr st, kv "sz" (toString sz), kv "al" (toString al), kv "rf" (toString rf), kv "n" (toString n),
+       kv "out" (hexOfBytes b)]
+  | .eaExport rf n b _ => ["ok", kv "rf" (toString rf), kv "n" (toString n), kv "out" (hexOfBytes b)]
+  | .freed _ => ["ok"]
+  | .eq st len rf x _ => [stStr st, kv "len" (toString len), kv "rf" (toString rf)] ++ eqExtraToks x
+  | .smInit rf _ => ["ok", kv "rf" (toString rf)]
+  | .sm st rf num ptr _ =>
+      [stStr st, kv "rf" (toString rf)] ++ (match num with | some i => [kv "num" (toString i)] | none => []) ++
+        (match ptr with | some p => [kv "ptr" (toString p)] | none => [])
+  | .mp rf o _ =>
+      ["ok", kv "rf" (toString rf)] ++ (match o with | .none => [] | .null => ["null"] | .obj x => [kv "obj" (toString x)])
+  | .mpExit _ => ["ok", kv "leaked" "0"]
+
+/-- the L2 part of a line (after ` | `), if it has one -/
+def l2Str : Out → Option String
+  | .word _ => none
+  | .ended _ n => some s!"n={n}"
+  | .initFail _ c | .ea _ _ _ _ _ c | .eaExport _ _ _ c | .freed c | .mpExit c => some (showL2c c)
+  | .eq _ _ _ _ l2 => some (showEqL2 l2)
+  | .smInit _ l2 | .sm _ _ _ _ l2 => some (showSmL2 l2)
+  | .mp _ _ l2 => some (showMpL2 l2)
+
+/-- the printed line: the L1 tokens joined by single spaces, then ` | ` and the L2 part -/
+def render (o : Out) : String :=
+  " ".intercalate (l1Toks o) ++ (match l2Str o with | some s => " | " ++ s | none => "")
 
 def step (s : DsStep.S) (toks : List String) : DsStep.S × String :=
   match parseOp toks with
